@@ -9,7 +9,7 @@ def run(tier, replay=None):
     ck = vlib.Check("C12", tier)
     if replay:
         return semcheck.replay_file(ck, replay)
-    fams = props.c12_families(tier, vlib.seed())
+    fams = props.c12_families(tier, vlib.seed(), ck=ck)
     vs = semcheck.run_families(ck, fams, props.c12_nontrivial)
     semcheck.binding_selftest(ck, vs)
     ck.cov["rule"] = props.c12_rule
